@@ -346,7 +346,19 @@ func vRunTLS(c vCase) string {
 	}
 	ch := make(chan dr, 1)
 	go func() {
-		x, err := ct.Dial(context.Background())
+		// the caller's context: none, one that can only be cancelled, or one with a deadline much later than the handshake timeout
+		dctx := context.Background()
+		switch c.get("dialctx") {
+		case "cancelonly":
+			var cf context.CancelFunc
+			dctx, cf = context.WithCancel(dctx)
+			defer cf()
+		case "laterdeadline":
+			var cf context.CancelFunc
+			dctx, cf = context.WithTimeout(dctx, time.Hour)
+			defer cf()
+		}
+		x, err := ct.Dial(dctx)
 		ch <- dr{x, err}
 	}()
 	var x Transporter
